@@ -19,6 +19,8 @@
 //!                                 directories of hard links sharing ONE tree blob at several paths + anchored excludes
 //!                                 below one occurrence only.
 //!   R <seed> <variant>            e2e repair_snapshots: undamaged (nothing changes), then one pack removed.
+//!   F <seed> <op> <k>           the k-th pack upload of copy (0) / merge (1) / rewrite (2) / repair (3) fails (tiny packs):
+//!                                 the command must return an error, or every snapshot it wrote must be complete.
 //! e2e output: `ok key=value ...` (all oracle flags) or `fail what=<text>`.
 use std::collections::{BTreeMap, BTreeSet};
 use std::ffi::OsStr;
@@ -980,6 +982,277 @@ fn mode_r(seed: u64, variant: u64) -> Result<String> {
     ))
 }
 
+// ------------------------------------------------------------------ mode S (copy from a damaged source)
+
+/// S <seed>: the SOURCE loses one data pack (+ repair_index); its snapshots are copied into a fresh destination.
+/// copy.rs skips needed ids the source index does not know (`filter_map`): the copy must succeed, add exactly
+/// `needed` (reachable - present in destination, known to the source) and every file whose chunks the source
+/// still has must dump identically from the destination.
+fn mode_s(seed: u64) -> Result<String> {
+    let mut r = SplitMix(seed);
+    let tp = TreeParams { max_entries: 20, max_depth: 3, max_file: 20_000, odd_names: false, symlinks: true, hardlinks: false };
+    let es = gen_tree(&mut r, &tp);
+    let td = tempfile::tempdir()?;
+    let d1 = td.path().join("d1");
+    materialize(&d1, &es)?;
+    let sstore = mem();
+    let (src, skey) = init_repo(sstore.clone(), None, &small_pack_config(3_000, 1_000), &repo_opts())?;
+    let (src, s1) = backup_dir(src, &d1, "src", None)?;
+    let srci = src.to_indexed()?;
+    let l = listing(&srci, &s1)?;
+    let orig = dumps(&srci, &l);
+    let get = |id: &TreeId| -> Result<Tree> { Ok(srci.get_tree(id)?) };
+    let short = |id: &Id| id_to_u64(id) >> 20;
+    let mut extra = String::from(" | T");
+    render(&get, &s1.tree, Style::Real, &mut extra)?;
+    let dirs: Vec<String> = l
+        .iter()
+        .filter_map(|(p, n)| match (n.is_dir(), &n.subtree) {
+            (true, Some(t)) => Some(format!("{} {}", path_hex(p), short(&Id::from(**t)))),
+            _ => None,
+        })
+        .collect();
+    extra.push_str(&format!(" | I 0 {} {} {}", short(&Id::from(*s1.tree)), dirs.len(), dirs.join(" ")));
+    let mut reach: BTreeSet<(bool, Id)> = BTreeSet::new();
+    let _ = reach.insert((true, Id::from(*s1.tree)));
+    for (_, n) in &l {
+        for d in n.content.iter().flatten() {
+            let _ = reach.insert((false, Id::from(**d)));
+        }
+        if let (true, Some(t)) = (n.is_dir(), &n.subtree) {
+            let _ = reach.insert((true, Id::from(**t)));
+        }
+    }
+    // lose one data pack of the source
+    let mut packs: Vec<Id> = Vec::new();
+    for f in srci.stream_files::<IndexFile>()? {
+        let (_, f) = f?;
+        for p in f.packs {
+            if p.blob_type() == BlobType::Data {
+                packs.push(Id::from(*p.id));
+            }
+        }
+    }
+    packs.sort();
+    if packs.is_empty() {
+        return Ok("ok damaged=0".into());
+    }
+    let victim = packs[r.below(packs.len() as u64) as usize];
+    drop(get);
+    let src = srci.drop_index();
+    sstore.remove(FileType::Pack, &victim, false)?;
+    src.repair_index(&RepairIndexOptions::default(), false)?;
+    drop(src);
+    let src = open_repo(sstore.clone(), None, &skey, &repo_opts())?.to_indexed()?;
+    let six: BTreeSet<(bool, Id)> = index_set(&src)?.intersection(&reach).copied().collect();
+    let (dst, _dkey) = init_repo(mem(), None, &small_pack_config(5_000, 2_000), &repo_opts())?;
+    let dst = dst.to_indexed_ids()?;
+    let before = index_set(&dst)?;
+    let res = src.copy(&dst, [&s1]);
+    let after = index_set(&dst)?;
+    let added: BTreeSet<(bool, Id)> = after.difference(&before).copied().collect();
+    let fmt = |st: &BTreeSet<(bool, Id)>| st.iter().map(|(t, i)| format!("{} {}", u8::from(*t), short(i))).collect::<Vec<_>>().join(" ");
+    extra.push_str(&format!(" | Q 0 1 0 | B 0 0  | S 0 {} {} | D 0 {} {}", six.len(), fmt(&six), added.len(), fmt(&added)));
+    let needed_ok = added == six;
+    // files whose chunks the source still has dump identically from the destination
+    let mut kept_ok = true;
+    let mut intact_files = 0;
+    if res.is_ok() {
+        let dst = dst.drop_index().to_indexed()?;
+        for d in dst.get_all_snapshots()? {
+            let dl = listing(&dst, &d)?;
+            let dd = dumps(&dst, &dl);
+            for (p, n) in &dl {
+                if n.is_file() && n.content.iter().flatten().all(|c| six.contains(&(false, Id::from(**c)))) {
+                    intact_files += 1;
+                    if dd.get(p).cloned().flatten().is_none() || dd.get(p) != orig.get(p) {
+                        kept_ok = false;
+                    }
+                }
+            }
+        }
+    }
+    let ok = res.is_ok() && needed_ok && kept_ok;
+    Ok(format!(
+        "{} damaged=1 copy_ok={} needed_ok={} kept_ok={} lost={} intact_files={intact_files}{extra}",
+        if ok { "ok" } else { "fail what=copy_damaged_source" },
+        u8::from(res.is_ok()), u8::from(needed_ok), u8::from(kept_ok), reach.len() - six.len()
+    ))
+}
+
+// ------------------------------------------------------------------ mode F (a pack upload fails)
+
+/// Backend wrapper that fails the k-th `write_bytes(Pack, ..)` after it was armed (the inner backend is not called).
+#[derive(Debug)]
+struct FailPack {
+    inner: Arc<dyn WriteBackend>,
+    seen: std::sync::atomic::AtomicUsize,
+    fail_at: std::sync::atomic::AtomicUsize,
+}
+impl FailPack {
+    fn new(inner: Arc<dyn WriteBackend>) -> Arc<Self> {
+        Arc::new(Self { inner, seen: 0.into(), fail_at: usize::MAX.into() })
+    }
+    fn arm(&self, k: usize) {
+        self.seen.store(0, std::sync::atomic::Ordering::SeqCst);
+        self.fail_at.store(k, std::sync::atomic::Ordering::SeqCst);
+    }
+    fn disarm(&self) -> usize {
+        self.fail_at.store(usize::MAX, std::sync::atomic::Ordering::SeqCst);
+        self.seen.load(std::sync::atomic::Ordering::SeqCst)
+    }
+}
+impl ReadBackend for FailPack {
+    fn location(&self) -> String {
+        self.inner.location()
+    }
+    fn list_with_size(&self, tpe: FileType) -> rustic_core::RusticResult<Vec<(Id, u32)>> {
+        self.inner.list_with_size(tpe)
+    }
+    fn read_full(&self, tpe: FileType, id: &Id) -> rustic_core::RusticResult<bytes::Bytes> {
+        self.inner.read_full(tpe, id)
+    }
+    fn read_partial(&self, tpe: FileType, id: &Id, cacheable: bool, offset: u32, length: u32) -> rustic_core::RusticResult<bytes::Bytes> {
+        self.inner.read_partial(tpe, id, cacheable, offset, length)
+    }
+    fn warmup_path(&self, tpe: FileType, id: &Id) -> String {
+        self.inner.warmup_path(tpe, id)
+    }
+}
+impl WriteBackend for FailPack {
+    fn create(&self) -> rustic_core::RusticResult<()> {
+        self.inner.create()
+    }
+    fn write_bytes(&self, tpe: FileType, id: &Id, cacheable: bool, buf: rustic_core::BytesList) -> rustic_core::RusticResult<()> {
+        if tpe == FileType::Pack {
+            let n = self.seen.fetch_add(1, std::sync::atomic::Ordering::SeqCst);
+            if n == self.fail_at.load(std::sync::atomic::Ordering::SeqCst) {
+                return Err(rustic_core::RusticError::new(rustic_core::ErrorKind::Backend, "injected fault: pack upload failed"));
+            }
+        }
+        self.inner.write_bytes(tpe, id, cacheable, buf)
+    }
+    fn remove(&self, tpe: FileType, id: &Id, cacheable: bool) -> rustic_core::RusticResult<()> {
+        self.inner.remove(tpe, id, cacheable)
+    }
+}
+
+/// every snapshot of the repository lists, every file dumps, check(read_data) is clean
+fn repo_complete(be: Arc<dyn WriteBackend>, key: &rustic_core::repofile::MasterKey) -> Result<(bool, usize)> {
+    let repo = open_repo(be.clone(), None, key, &repo_opts())?;
+    let clean = check_clean(&repo).unwrap_or(false);
+    let repo = repo.to_indexed()?;
+    let mut ok = clean;
+    let snaps = repo.get_all_snapshots()?;
+    for s in &snaps {
+        match listing(&repo, s) {
+            Ok(l) => {
+                if dumps(&repo, &l).values().any(Option::is_none) {
+                    ok = false;
+                }
+            }
+            Err(_) => ok = false,
+        }
+    }
+    Ok((ok, snaps.len()))
+}
+
+/// F <seed> <op> <k>: op 0 copy, 1 merge, 2 rewrite, 3 repair; the k-th pack upload of the command fails.
+/// Oracle: the command returns an error, or every snapshot of the repository it wrote to is complete.
+fn mode_f(seed: u64, op: u64, k: u64) -> Result<String> {
+    let mut r = SplitMix(seed);
+    let td = tempfile::tempdir()?;
+    // sources: several incompressible files and nested directories, so that tiny packs give many pack files
+    let mut es: Vec<Entry> = Vec::new();
+    let t = (1_600_000_000, 0);
+    for i in 0..6u64 {
+        es.push(Entry { path: format!("f{i}").into(), kind: Kind::File(Content::Random { seed: seed ^ (i * 7919), len: 3000 + 500 * i as usize }), mode: 0o644, mtime: t });
+        es.push(Entry { path: format!("d{}/e{}/g{i}", i % 3, i % 2).into(), kind: Kind::File(Content::Random { seed: seed ^ (i * 104_729), len: 700 }), mode: 0o644, mtime: t });
+    }
+    let (d1, d2) = (td.path().join("d1"), td.path().join("d2"));
+    materialize(&d1, &es)?;
+    let mut es2 = es.clone();
+    es2.truncate(8);
+    es2.push(Entry { path: "d0/e0/new".into(), kind: Kind::File(Content::Random { seed: seed ^ 5, len: 900 }), mode: 0o600, mtime: (1_600_000_009, 0) });
+    materialize(&d2, &es2)?;
+    let small = small_pack_config(2_000, 1);
+    let store = mem();
+    let fp = FailPack::new(store.clone());
+    let (repo, key) = init_repo(fp.clone(), None, &small, &repo_opts())?;
+    let (repo, s1) = backup_dir(repo, &d1, "src", None)?;
+    let (repo, s2) = backup_dir(repo, &d2, "src", None)?;
+    let _ = r.next();
+    let (result, packs, target, tkey): (Result<()>, usize, Arc<dyn WriteBackend>, rustic_core::repofile::MasterKey) = match op {
+        0 => {
+            let dstore = mem();
+            let dfp = FailPack::new(dstore.clone());
+            let (dst, dkey) = init_repo(dfp.clone(), None, &small, &repo_opts())?;
+            let src = repo.to_indexed()?;
+            let dst = dst.to_indexed_ids()?;
+            dfp.arm(k as usize);
+            let res = src.copy(&dst, [&s1, &s2]).map_err(anyhow::Error::from);
+            let n = dfp.disarm();
+            (res, n, dstore, dkey)
+        }
+        1 => {
+            let repo = repo.to_indexed()?;
+            fp.arm(k as usize);
+            let res = repo.merge_snapshots(&[s1.clone(), s2.clone()], &last_modified_node, SnapshotFile::default()).map(|_| ()).map_err(anyhow::Error::from);
+            (res, fp.disarm(), store.clone(), key.clone())
+        }
+        2 => {
+            let repo = repo.to_indexed()?;
+            let topts = RewriteTreesOptions::default().excludes(Excludes::default().globs(vec!["!g1".to_string(), "!/src/d0/e0/g0".to_string(), "!f2".to_string()]));
+            fp.arm(k as usize);
+            let res = repo.rewrite_snapshots_and_trees(vec![s1.clone(), s2.clone()], &RewriteOptions::default(), &topts).map(|_| ()).map_err(anyhow::Error::from);
+            (res, fp.disarm(), store.clone(), key.clone())
+        }
+        _ => {
+            // lose the data of one nested file in both snapshots, repair the index, then repair the snapshots
+            let repo = repo.to_indexed()?;
+            let l = listing(&repo, &s1)?;
+            let victim = l.iter().find(|(p, _)| p == Path::new("src/d1/e1/g1")).and_then(|(_, n)| n.content.iter().flatten().next().copied());
+            if let Some(d) = victim {
+                let pack = Id::from(*repo.get_index_entry::<DataId>(&d)?.pack);
+                store.remove(FileType::Pack, &pack, false)?;
+            }
+            let repo = repo.drop_index();
+            repo.repair_index(&RepairIndexOptions::default(), false)?;
+            drop(repo);
+            let repo = open_repo(fp.clone(), None, &key, &repo_opts())?.to_indexed()?;
+            let cur = repo.get_all_snapshots()?;
+            fp.arm(k as usize);
+            let res = repo.repair_snapshots(&RepairSnapshotsOptions::default(), cur, false).map_err(anyhow::Error::from);
+            (res, fp.disarm(), store.clone(), key.clone())
+        }
+    };
+    let failed_one = (k as usize) < packs;
+    let (complete, nsnaps) = match &result {
+        Ok(()) => repo_complete(target, &tkey)?,
+        Err(_) => (true, 0),
+    };
+    Ok(format!(
+        "{} op={op} k={k} packs_attempted={packs} fault_hit={} returned={} complete={} snapshots={nsnaps}",
+        if complete { "ok" } else { "fail what=fault" },
+        u8::from(failed_one),
+        if result.is_ok() { "ok" } else { "err" },
+        u8::from(complete)
+    ))
+}
+
+fn mode_f_watchdog(seed: u64, op: u64, k: u64) -> Result<String> {
+    let (tx, rx) = std::sync::mpsc::channel();
+    let _h = std::thread::spawn(move || {
+        let r = std::panic::catch_unwind(|| mode_f(seed, op, k));
+        let _ = tx.send(r);
+    });
+    match rx.recv_timeout(std::time::Duration::from_secs(90)) {
+        Err(_) => Ok(format!("fail what=fault op={op} k={k} hang=1")),
+        Ok(Err(_)) => Ok(format!("fail what=fault op={op} k={k} panic=1")),
+        Ok(Ok(r)) => r,
+    }
+}
+
 // ------------------------------------------------------------------ main
 
 fn case(line: &str) -> String {
@@ -1002,6 +1275,11 @@ fn case(line: &str) -> String {
         "R" => {
             let (seed, v) = (t.u(), t.u());
             mode_r(seed, v)
+        }
+        "S" => mode_s(t.u()),
+        "F" => {
+            let (seed, op, k) = (t.u(), t.u(), t.u());
+            mode_f_watchdog(seed, op, k)
         }
         _ => Err(anyhow!("unknown mode")),
     };
